@@ -6,6 +6,23 @@ HERE = os.path.dirname(os.path.dirname(os.path.abspath(__file__)))
 sys.path.insert(0, os.path.join(HERE, 'tools'))
 import seedcheck
 
+def needs(notes: str) -> str:
+    """the text under the heading about what the change needs in order to manifest"""
+    lines = notes.splitlines()
+    for i, l in enumerate(lines):
+        if l.lstrip().startswith('#') and ('manifest' in l.lower() or 'need' in l.lower()):
+            body = []
+            for m in lines[i + 1:]:
+                if m.lstrip().startswith('#'):
+                    break
+                if m.strip():
+                    body.append(m.strip())
+            if body:
+                return ' '.join(body)[:500]
+    return next((l.strip() for l in lines if ('need' in l.lower() or 'manifest' in l.lower())
+                 and len(l) > 30 and not l.lstrip().startswith('#')), '')[:500]
+
+
 wt, pid = sys.argv[1], sys.argv[2]
 for x in sys.argv[3:]:
     src = os.path.join(wt, '_seed', x)
@@ -27,8 +44,7 @@ for x in sys.argv[3:]:
         'id': f'{pid}-{x}',
         'breaks_property': pid[:3],
         'origin': 'independent sub-agent given only the property text and a scratch worktree',
-        'needs_to_manifest': next((l.strip() for l in notes.splitlines()
-                                   if 'need' in l.lower() and len(l) > 20), '')[:400],
+        'needs_to_manifest': needs(notes),
         'validated': {
             'demo_exit_clean_tree': out['demo_clean_exit'],
             'demo_exit_with_patch': out['demo_patched_exit'],
